@@ -11,9 +11,9 @@ def project():
     f = {}
     f["src/chain.f90"] = ("module chain\n  implicit none\ncontains\n" +
                           "".join(f"  subroutine p{i}()\n    call p{i+1}()\n  end subroutine p{i}\n" for i in range(1, 5)) +
-                          "  subroutine p5()\n    call p1()\n  end subroutine p5\n  subroutine lonely()\n    !! graph: false\n  end subroutine lonely\nend module chain\n")
+                          "  subroutine p5()\n    call p1()\n    call lonely()\n  end subroutine p5\n  subroutine lonely()\n    !! graph: false\n  end subroutine lonely\nend module chain\n")
     f["src/uses.f90"] = ("module base\nend module base\nmodule left\n  use base\nend module left\nmodule right\n  use base\nend module right\n"
-                         "module top\n  use left\n  use right\nend module top\n")
+                         "module top\n  use left\n  use right\n  use quiet\nend module top\nmodule quiet\n  !! graph: false\n  use base\nend module quiet\n")
     f["src/types.f90"] = ("module types\n  implicit none\n  type :: t0\n    integer :: a\n  end type t0\n  type, extends(t0) :: t1\n  end type t1\n  type, extends(t1) :: t2\n    type(t0) :: comp\n  end type t2\n"
                           "  type :: alpha\n  contains\n    procedure :: ei\n    generic :: g => ei\n  end type alpha\ncontains\n  subroutine ei(self)\n    class(alpha) :: self\n    call eight()\n  end subroutine ei\n"
                           "  subroutine eight()\n  end subroutine eight\n  subroutine foo()\n    type(alpha) :: y\n    call y%g()\n  end subroutine foo\nend module types\n")
@@ -82,8 +82,16 @@ def check(proj, gm, maxdepth, maxnodes):
             for (n2, c2, g2), (nodes2, edges2, gg) in per_entity.items():
                 if g2 == inv and gg.root[0].ident == b and gg.truncated != 1 and (a, b) not in edges2:
                     bad.append(f"{gname} of {name} has {a} -> {b} but {inv} of {n2} lacks it")
-    if any(e.name == "lonely" for e in gm.graph_objs):
+    if any(e.name in ("lonely", "quiet") for e in gm.graph_objs):
         bad.append("entity with `graph: false` was registered for graphs")
+    # ... and has no node in the project-wide graphs either, although other entities refer to it
+    for gname, hidden in (("callgraph", "lonely"), ("usegraph", "quiet")):
+        g = getattr(gm, gname, None)
+        if g is not None and hasattr(g, "dot"):
+            nodes, edges = parse_dot(g.dot.source)
+            hit = [n for n in nodes if n.split("~")[-1] == hidden] + [f"{a} -> {b}" for a, b in edges if hidden in (a.split("~")[-1], b.split("~")[-1])]
+            if hit:
+                bad.append(f"project {gname}: the entity '{hidden}' carries `graph: false` but appears in the graph: {hit[:3]}")
     return bad
 
 
